@@ -27,6 +27,7 @@ type cspec struct {
 	zone    string
 	port    int // -1 none, -2 garbage, else number
 	colon   bool
+	lead    bool // the port is written with a leading zero (still a decimal number)
 }
 
 type citem struct {
@@ -72,7 +73,9 @@ func (s cspec) text() string {
 	}
 	switch {
 	case s.port == -2:
-		return h + ":" + []string{"abc", "67x", "1.5", " 67"}[len(s.written)%4]
+		return h + ":" + []string{"abc", "67x", "1.5", " 67", "0x43", "6_7", "0o103", "0b1000011", "1e3"}[(len(s.written)+len(s.zone))%9]
+	case s.port >= 0 && s.lead:
+		return fmt.Sprintf("%s:0%d", h, s.port)
 	case s.port >= 0:
 		return fmt.Sprintf("%s:%d", h, s.port)
 	case s.colon:
@@ -380,10 +383,13 @@ func runConfig(args []string) error {
 						continue
 					}
 					for _, zone := range []string{"", zoneName, "nosuchif0"} {
-						for _, port := range []int{-1, -2, 1067, 0, 65535, -3} {
+						for _, port := range []int{-1, -2, 1067, 0, 65535, -3, -4, -5} {
 							sp := cspec{ip: cl, written: ipText(cl, r), bracket: br, zone: zone, port: port}
 							if port == -3 {
 								sp.port, sp.colon = -1, true
+							}
+							if port == -4 || port == -5 { // "067" / "0547": a decimal number with a leading zero
+								sp.port, sp.lead = map[int]int{-4: 67, -5: 547}[port], true
 							}
 							sec := csec{present: true, listenK: lk, specs: []cspec{sp}, plugK: "list", items: randItems(r, 1+r.Intn(2), true)}
 							k++
@@ -453,7 +459,7 @@ func runConfig(args []string) error {
 						cl = map[int][]string{4: {"none", "v4", "mc4", "v4mapped"}, 6: {"none", "v6", "mc6"}}[ver][r.Intn(3)]
 					}
 					sp := cspec{ip: cl, written: ipText(cl, r), bracket: r.Intn(3) != 0 && cl != "none", zone: []string{"", "", zoneName}[r.Intn(3)],
-						port: []int{-1, -1, 1067, 547, 67, -2}[r.Intn(6)]}
+						port: []int{-1, -1, 1067, 547, 67, -2}[r.Intn(6)], lead: r.Intn(5) == 0}
 					sec.specs = append(sec.specs, sp)
 				}
 			}
